@@ -608,6 +608,11 @@ class Gen:
             items.append(it)
         if want_group and not any(it.group for it in items):
             items.append(self.group_item(fam))
+        if self.force.get("interleave") and r.random() < 0.7 and not any("uf(" in it.text for it in items):
+            # interleave phase: the formula calls the user function through which another operation is issued,
+            # at a random position among the terms (work done before it and work left to do after it)
+            v = r.choice(NUM_COLS)
+            items.insert(r.randrange(len(items) + 1), Item(f"uf({v})", [v], fams=["uf"]))
         # response
         ropts = [("y", 6)]
         if "resp_level" in fam:
@@ -1115,6 +1120,8 @@ class Gen:
                     do_eval(target=d["id"], canary=True, kind="fresh")
         for op in ops:
             op.setdefault("fault", None)
+        if self.force.get("interleave"):
+            ops = self.fold_interleavings(ops)
         return {
             "run_seed": self.run_seed,
             "property": self.prop,
@@ -1124,6 +1131,43 @@ class Gen:
             "frames": self.frames,
             "ops": ops,
         }
+
+
+def _fold(self, ops):
+    """Interleavings: an operation B that follows an un-faulted build / evaluation A whose formula calls the
+    client function ``uf`` is moved INSIDE A (``A["nested"] = B``): the executor issues B from within ``uf``, i.e.
+    in the middle of A, the way user code called by a formula (or another thread of the host program) would.
+    B never depends on A's result; both keep their own oracles."""
+    r = random.Random(mix(self.run_seed, "interleave"))
+    text = {}
+    for o in ops:
+        if o["op"] == "build":
+            text[o["id"]] = o["formula"]
+        elif o["op"] == "rebuild":
+            text[o["id"]] = text.get(o["of"], "")
+    out = []
+    i = 0
+    while i < len(ops):
+        a = ops[i]
+        b = ops[i + 1] if i + 1 < len(ops) else None
+        ok = (b is not None and a["op"] in ("build", "eval") and b["op"] in ("build", "eval")
+              and not a.get("fault") and not b.get("fault")
+              and "uf(" in (a["formula"] if a["op"] == "build" else text.get(a.get("root"), ""))
+              and not (b["op"] == "eval" and (b["target"] == a.get("id") or b.get("root") == a.get("id"))))
+        if ok and r.random() < 0.6:
+            a = dict(a)
+            a["nested"] = b
+            out.append(a)
+            i += 2
+        else:
+            out.append(a)
+            i += 1
+    for n, o in enumerate(out):
+        o["n"] = n
+    return out
+
+
+Gen.fold_interleavings = _fold
 
 
 def generate(run_seed, prop, tier="quick", disabled=(), force=None):
